@@ -1,80 +1,104 @@
 ------------------------------ MODULE FillPlan ------------------------------
 (***************************************************************************)
 (* The plan of the impedance-matrix fill (Mininec.compute_impedance_matrix) *)
-(* for the pulses of ONE straight object: which entries are computed in     *)
-(* full, which with the same-wire shortcut, which are copied from another   *)
-(* entry of their diagonal, and which lower-triangle entries are mirrored   *)
-(* from the upper triangle.  (Pulses of different objects, and junction     *)
-(* pulses, are always computed in full; the image pass is always computed   *)
-(* in full.)                                                                *)
+(* which entries are computed in full, which with the same-wire shortcut,   *)
+(* which are copied from another entry of their diagonal, and which         *)
+(* lower-triangle entries are mirrored from the upper triangle.  (The image *)
+(* pass is always computed in full.)                                        *)
 (*                                                                         *)
-(* An object has ns segments with LENGTH CLASSES lc[1..ns] (equal class =   *)
+(* A model is a sequence of straight objects and a sequence of pulses.  An  *)
+(* object has ns segments with LENGTH CLASSES lc[1..ns] (equal class =      *)
 (* equal length: 1,1,1,1 uniform; 1,2,3,3,3 a taper with a maximum).  lc    *)
 (* are the classes of EXACT floating-point equality, which is what the      *)
 (* program compares; pc are the classes of physical equality (lengths that  *)
 (* differ by rounding only are one class) used for the validity of the      *)
-(* plan.  When TLC enumerates objects itself the two coincide.              *)
-(* optionally a grounded first / last end, and is vertical or not.          *)
-(* Pulses: ground pulse at end 1 (halves: image of segment 1, segment 1),   *)
-(* interior pulses k (segments k, k+1), ground pulse at end 2.              *)
+(* plan; dc the classes of exactly equal direction vectors.  Classes are    *)
+(* global (the same number on two objects = the same length).  When TLC     *)
+(* enumerates models itself lc and pc coincide.                             *)
+(* A pulse <<o1, s1, o2, s2, gnd>> has its first half on segment s1 of      *)
+(* object o1 and its second half on segment s2 of object o2; an interior    *)
+(* pulse has o1 = o2 and s2 = s1 + 1, a junction pulse o1 # o2, a ground    *)
+(* pulse (gnd) o1 = o2, s1 = s2 (halves: image of the segment, segment).    *)
 (*                                                                         *)
-(* Every shortcut is valid only between two pulses that lie on a uniformly  *)
-(* segmented straight stretch (all four half segments of one length) and,   *)
-(* if one of them is a ground pulse, on a vertical object.  The constant    *)
-(* EqualAcrossPulses selects the code after (TRUE) / before (FALSE) the     *)
-(* repair that added the comparison of the segment lengths of the two       *)
-(* pulses.                                                                  *)
+(* Every shortcut is valid only between two pulses that lie on ONE object   *)
+(* on a uniformly segmented straight stretch (all four half segments of one *)
+(* length) and, if one of them is a ground pulse, on a vertical object.     *)
+(* Junction pulses and pulses of different objects are computed in full.    *)
+(* The constant EqualAcrossPulses selects the code after (TRUE) / before    *)
+(* (FALSE) the repair that added the comparison of the segment lengths of   *)
+(* the two pulses.                                                          *)
 (***************************************************************************)
 EXTENDS Naturals, Sequences, FiniteSets, TLC, Json, IOUtils, TLCExt
 
-CONSTANTS MaxSeg, MaxClass, EqualAcrossPulses, FromFile
+CONSTANTS MaxSeg, MaxClass, EqualAcrossPulses, FromFile,
+          MaxSeg2          \* chains of two objects with up to MaxSeg2 segments each (0: single objects only)
 
 Given == IF FromFile THEN JsonDeserialize(IOEnv.TRACE_FILE) ELSE <<>>
 
-VARIABLES obj, tid        \* obj = [ns, lc, g1, g2, vertical]
-vars == <<obj, tid>>
+VARIABLES mdl, tid        \* mdl = [objs, pulses]
+vars == <<mdl, tid>>
 
 \* the segmentations the program can produce for a straight wire (equal, tapered from one or both
 \* ends, optionally with a maximum) have at most ONE length that occurs on neighbouring segments
 OneRun(p, n) == \A a, b \in 1..(n-1) : (p[a] = p[a+1] /\ p[b] = p[b+1]) => p[a] = p[b]
 Patterns(n) == {p \in [1..n -> 1..MaxClass] : OneRun(p, n)}
+
+Obj(n, p, vert) == [ns |-> n, lc |-> p, pc |-> p, dc |-> [k \in 1..n |-> 1], vertical |-> vert]
+\* pulses of object o (ns segments) in the order of the program: ground pulse of end 1, interior, ground pulse of end 2
+OwnPulses(o, n, a, b) ==
+  (IF a THEN << <<o, 1, o, 1, TRUE>> >> ELSE <<>>)
+  \o [k \in 1..(n-1) |-> <<o, k, o, k + 1, FALSE>>]
+  \o (IF b THEN << <<o, n, o, n, TRUE>> >> ELSE <<>>)
+
+Single ==
+  \E n \in 1..MaxSeg : \E p \in Patterns(n) : \E a, b, vert \in BOOLEAN :
+     /\ ~(a /\ b)                               \* a wire with both ends grounded is rejected
+     /\ mdl = [objs |-> << Obj(n, p, vert) >>, pulses |-> OwnPulses(1, n, a, b)]
+\* object 1 (first end possibly grounded) continued at its second end by object 2 (second end possibly
+\* grounded): the junction pulse belongs to the later object and heads its block
+Chain ==
+  /\ MaxSeg2 > 0
+  /\ \E n1, n2 \in 1..MaxSeg2 : \E p1 \in Patterns(n1), p2 \in Patterns(n2) : \E a, b, v1, v2 \in BOOLEAN :
+       /\ mdl = [objs |-> << Obj(n1, p1, v1), Obj(n2, p2, v2) >>,
+                 pulses |-> OwnPulses(1, n1, a, FALSE) \o << <<1, n1, 2, 1, FALSE>> >> \o OwnPulses(2, n2, FALSE, b)]
 Init ==
   IF FromFile
   THEN /\ tid \in 1..Len(Given)
-       /\ obj = [ns |-> Given[tid].ns, lc |-> Given[tid].lc, pc |-> Given[tid].pc, dc |-> Given[tid].dc,
-                 g1 |-> Given[tid].g1, g2 |-> Given[tid].g2, vertical |-> Given[tid].vertical]
+       /\ mdl = [objs |-> Given[tid].objs, pulses |-> Given[tid].pulses]
   ELSE /\ tid = 0
-       /\ \E n \in 1..MaxSeg : \E p \in Patterns(n) : \E a, b, v \in BOOLEAN :
-            /\ ~(a /\ b)                               \* a wire with both ends grounded is rejected
-            /\ obj = [ns |-> n, lc |-> p, pc |-> p, dc |-> [k \in 1..n |-> 1], g1 |-> a, g2 |-> b, vertical |-> v]
+       /\ (Single \/ Chain)
 Next == UNCHANGED vars
 Spec == Init /\ [][Next]_vars
 
-\* ---------------------------------------------------------------- pulses of the object
-NP == obj.ns - 1 + (IF obj.g1 THEN 1 ELSE 0) + (IF obj.g2 THEN 1 ELSE 0)
-Off == IF obj.g1 THEN 1 ELSE 0
-\* pulse q (1-based): <<segment of first half, segment of second half, grounded>>
-Pulse(q) == IF obj.g1 /\ q = 1 THEN <<1, 1, TRUE>>
-            ELSE IF obj.g2 /\ q = NP THEN <<obj.ns, obj.ns, TRUE>>
-            ELSE <<q - Off, q - Off + 1, FALSE>>
-Grounded(q) == Pulse(q)[3]
-SameLen(q) == obj.lc[Pulse(q)[1]] = obj.lc[Pulse(q)[2]]
+\* ---------------------------------------------------------------- pulses
+NP == Len(mdl.pulses)
+Pulse(q) == mdl.pulses[q]
+O1(q) == Pulse(q)[1]
+S1(q) == Pulse(q)[2]
+O2(q) == Pulse(q)[3]
+S2(q) == Pulse(q)[4]
+Grounded(q) == Pulse(q)[5]
+OneObject(q) == O1(q) = O2(q)                              \* not a junction pulse
+SameLen(q) == mdl.objs[O1(q)].lc[S1(q)] = mdl.objs[O2(q)].lc[S2(q)]
 \* direction vectors are compared exactly as well (dc = classes of exactly equal direction vectors:
 \* one class for an equally segmented wire, rounding-dependent for a tapered one)
-SameDir(q) == obj.dc[Pulse(q)[1]] = obj.dc[Pulse(q)[2]]
-NVG(q) == Grounded(q) /\ ~obj.vertical                   \* Pulse.is_non_vertical_grounded
+SameDir(q) == mdl.objs[O1(q)].dc[S1(q)] = mdl.objs[O2(q)].dc[S2(q)]
+NVG(q) == Grounded(q) /\ ~mdl.objs[O1(q)].vertical         \* Pulse.is_non_vertical_grounded
 
 \* ---------------------------------------------------------------- the plan, as the code builds it
 Opt(m, n) ==
-  IF SameLen(m) /\ SameLen(n) /\ SameDir(m) /\ SameDir(n) /\ ~NVG(m) /\ ~NVG(n)
-     /\ (EqualAcrossPulses => obj.lc[Pulse(m)[1]] = obj.lc[Pulse(n)[1]])
+  IF OneObject(m) /\ OneObject(n) /\ O1(m) = O1(n)
+     /\ SameLen(m) /\ SameLen(n) /\ SameDir(m) /\ SameDir(n) /\ ~NVG(m) /\ ~NVG(n)
+     /\ (EqualAcrossPulses => mdl.objs[O1(m)].lc[S1(m)] = mdl.objs[O1(n)].lc[S1(n)])
   THEN (IF m = n THEN 2 ELSE 1) ELSE 0
 NGnd(n) == ~Grounded(n)
-\* candidates on the diagonal with offset d (m, m+d), in index order
-Diag(d) == {m \in 1..(NP - d) : Opt(m, m + d) > 0 /\ NGnd(m + d)}
-Src(d) == CHOOSE m \in Diag(d) : \A x \in Diag(d) : m <= x
-IsCopyDst(m, n) == n >= m /\ Cardinality(Diag(n - m)) >= 2 /\ m \in Diag(n - m) /\ m # Src(n - m)
-CopySrcOf(m, n) == <<Src(n - m), Src(n - m) + (n - m)>>
+\* candidates on the diagonal with offset d (m, m+d) on object g, in index order
+Diag(d, g) == {m \in 1..(NP - d) : Opt(m, m + d) > 0 /\ NGnd(m + d) /\ O1(m) = g}
+Src(d, g) == CHOOSE m \in Diag(d, g) : \A x \in Diag(d, g) : m <= x
+IsCopyDst(m, n) == /\ n >= m
+                   /\ Cardinality(Diag(n - m, O1(m))) >= 2
+                   /\ m \in Diag(n - m, O1(m)) /\ m # Src(n - m, O1(m))
+CopySrcOf(m, n) == <<Src(n - m, O1(m)), Src(n - m, O1(m)) + (n - m)>>
 Mirror(m, n) == m < n /\ Opt(m, n) > 0               \* "copy": the lower entry (n,m) takes the upper (m,n)
 Computed(m, n) == ~Mirror(n, m) /\ ~IsCopyDst(m, n)  \* compu of the k = 1 pass
 \* where the value of entry (m,n) of the k = 1 pass finally comes from
@@ -84,13 +108,15 @@ Origin(m, n) ==
   ELSE <<m, n>>
 
 \* ---------------------------------------------------------------- validity of the plan
+PC(q, h) == IF h = 1 THEN mdl.objs[O1(q)].pc[S1(q)] ELSE mdl.objs[O2(q)].pc[S2(q)]
 Uniform(m, n) ==
-  /\ obj.pc[Pulse(m)[1]] = obj.pc[Pulse(m)[2]]
-  /\ obj.pc[Pulse(n)[1]] = obj.pc[Pulse(n)[2]]
-  /\ obj.pc[Pulse(m)[1]] = obj.pc[Pulse(n)[1]]
-  /\ ((Grounded(m) \/ Grounded(n)) => obj.vertical)
+  /\ OneObject(m) /\ OneObject(n) /\ O1(m) = O1(n)
+  /\ PC(m, 1) = PC(m, 2)
+  /\ PC(n, 1) = PC(n, 2)
+  /\ PC(m, 1) = PC(n, 1)
+  /\ ((Grounded(m) \/ Grounded(n)) => mdl.objs[O1(m)].vertical)
 Pairs == (1..NP) \X (1..NP)
-\* a shortcut is only planned between pulses of one uniform stretch
+\* a shortcut is only planned between pulses of one uniform stretch of one object
 ShortcutOnlyIfUniform == \A pr \in Pairs : Opt(pr[1], pr[2]) > 0 => Uniform(pr[1], pr[2])
 \* every entry takes its value from an entry that is really computed, and that entry is congruent to it
 OriginIsComputed == \A pr \in Pairs : LET o == Origin(pr[1], pr[2]) IN Computed(o[1], o[2])
@@ -98,15 +124,20 @@ OriginIsCongruent ==
   \A pr \in Pairs : LET o == Origin(pr[1], pr[2]) IN
      o # <<pr[1], pr[2]>> =>
         /\ Uniform(pr[1], pr[2]) /\ Uniform(o[1], o[2])
-        /\ obj.pc[Pulse(o[1])[1]] = obj.pc[Pulse(pr[1])[1]]
+        /\ O1(o[1]) = O1(pr[1])
+        /\ PC(o[1], 1) = PC(pr[1], 1)
         /\ (o[2] - o[1] = pr[2] - pr[1] \/ o[2] - o[1] = pr[1] - pr[2])      \* same index distance
 \* (the code is more conservative for diagonal copies: a ground pulse is never the SOURCE pulse of a
 \*  copied entry -- "Grounded pulses *must* be computed"; stated separately)
 CopiedSourceNotGrounded ==
   \A pr \in Pairs : IsCopyDst(pr[1], pr[2]) => ~Grounded(pr[2])
+\* entries that involve a junction pulse or two different objects are computed in full
+JunctionsInFull ==
+  \A pr \in Pairs : (~OneObject(pr[1]) \/ ~OneObject(pr[2]) \/ O1(pr[1]) # O1(pr[2])) =>
+       /\ Opt(pr[1], pr[2]) = 0 /\ Origin(pr[1], pr[2]) = <<pr[1], pr[2]>>
 
 Plan == [opt |-> [m \in 1..NP |-> [n \in 1..NP |-> Opt(m, n)]],
          computed |-> [m \in 1..NP |-> [n \in 1..NP |-> Computed(m, n)]],
          origin |-> [m \in 1..NP |-> [n \in 1..NP |-> Origin(m, n)]]]
-Dump == PrintT(ToJson([tid |-> tid, obj |-> obj, np |-> NP, plan |-> Plan]))
+Dump == PrintT(ToJson([tid |-> tid, np |-> NP, plan |-> Plan]))
 =============================================================================
